@@ -235,11 +235,13 @@ def eval_expr(e, window, orc, ties=None):
 
 # ------------------------------------------------------------------------------------------ reading a run
 class Ev:
-    __slots__ = ("kind", "t", "id", "code", "orc", "out", "before", "after", "until", "idx", "extra", "syn", "rec_only")
+    __slots__ = ("kind", "t", "id", "code", "orc", "out", "before", "after", "until", "idx", "extra", "syn", "rec_only", "grp", "placed")
 
     def __init__(self):
         self.rec_only = False
         self.syn = False
+        self.grp = None        # op line of the `pburst` this synthetic arrival belongs to
+        self.placed = False
 
 
 def kvget(f, key, default=None):
@@ -334,6 +336,28 @@ def read_run(ops, outs):
             evs.append(e)
             parked = None
             o = " ".join(g[k:])
+        if f[0] == "pburst" and len(f) == 2:
+            # n arrivals at once at one frozen instant: the answers are counted, not ordered.  The synthetic arrivals are
+            # listed refusals first (the request that starts a recovery is refused); inside a recovery period
+            # `ramp_decisions` orders them as the ramp rule itself would (whatever it cannot place is then flagged)
+            g = o.split()
+            n = int(f[1])
+            m = re.match(r"pburst pass=(\d+) fallback=(\d+) (standby|tripped|recovering)( until=-?\d+)?$", o)
+            ok = bool(m) and int(m.group(1)) + int(m.group(2)) == n
+            answers = (["fallback"] * int(m.group(2)) + ["pass"] * int(m.group(1))) if ok else []
+            s0 = state
+            if ok:
+                state = m.group(3)
+            for j in range(n if ok else 1):
+                e = Ev()
+                e.kind, e.t, e.idx, e.id, e.code, e.orc, e.until, e.syn = "start", now, i, None, None, [], None, True
+                e.grp = i
+                e.out = answers[j] if ok else "lost"
+                e.before = s0
+                e.after = state if j == n - 1 else s0
+                e.extra = "" if ok else "unreadable:" + o
+                evs.append(e)
+            continue
         if f[0] == "burst" and len(f) == 3:
             # n arrivals, the clock advancing after each; the answers are run-length encoded, the state is printed once at
             # the end: the synthetic arrivals carry the state before the burst, the last one the state after it
@@ -459,9 +483,28 @@ def ramp_decisions(cfg, evs):
     """(event, passed-before, refused-before, elapsed) for every arrival inside a recovery period"""
     for seg in recoveries(cfg, evs):
         p = f = 0
-        for e in seg["arrivals"]:
+        arr = seg["arrivals"]
+        for k, e in enumerate(arr):
             if e.t > seg["t0"] + cfg["rec"]:
                 break
+            if getattr(e, "grp", None) is not None and not getattr(e, "placed", False):
+                # the unordered answers of a `pburst`: place them in the order the ramp rule gives
+                grp = [x for x in arr[k:] if getattr(x, "grp", None) == e.grp]
+                left = {"pass": sum(1 for x in grp if ans_of(x) == "pass"), "fallback": sum(1 for x in grp if ans_of(x) == "fallback")}
+                if left["pass"] + left["fallback"] == len(grp):
+                    pp, ff, el = p, f, e.t - seg["t0"]
+                    for x in grp:
+                        L, R = (pp + 1) * 2 * cfg["rec"], el * (pp + ff + 1)
+                        want = "pass" if L < R else "fallback" if L > R else ("pass" if left["pass"] >= left["fallback"] else "fallback")
+                        if not left[want]:
+                            want = "fallback" if want == "pass" else "pass"
+                        left[want] -= 1
+                        x.out = want
+                        x.placed = True
+                        if want == "pass":
+                            pp += 1
+                        else:
+                            ff += 1
             yield e, p, f, e.t - seg["t0"], seg
             if ans_of(e) == "pass":
                 p += 1
@@ -682,6 +725,7 @@ class Builder:
         self.lines = ["cfg fb=%d rec=%d cp=%d px=%s go=%s%s%s" % (fb, rec, cp, px_expr(expr), go_expr(expr, rng),
                                                                    " qs=" + ",".join(qs) if qs else "", opt)]
         self.parks = rng.randint(1, 3) if rng.random() < 0.25 else 0
+        self.pbursts = 0
         self.now = 0
         self.fl = []
         self.n = 0
@@ -811,6 +855,10 @@ class Builder:
                 n = r.randint(2, 5)
             for _ in range(n):
                 self.probe(mood)
+            if k > 0 and self.pbursts < 2 and r.random() < 0.025:
+                # several requests arrive at once (each costs the harness one 300 ms rendezvous time-out on the code as it is)
+                self.pbursts += 1
+                self.lines.append("pburst %d" % r.choice([4, 8, 16]))
             if self.parks and r.random() < 0.3:
                 self.park_episode(mood)
             if r.random() < 0.15 and stp > 2:
